@@ -412,4 +412,21 @@ PROPS = {
             "the analyses are read-only: theorem effects_complete on the regenerated inventory of fs / process / env call sites",
         ],
     },
+    "C19": {
+        "theorems": {
+            "Solstat.Props.C19": ["compose_of_distributes", "item_contribution", "distributes_filterMap", "distributes_flatMap",
+                                  "contracts_sourceUnit", "distributes_perContract", "constructorOrder_distributes", "packStorage_distributes",
+                                  "C19_local", "solidityPragmas_keep", "versionOf_keep"],
+            "Solstat.Props.Compose": ["allNodes_sourceUnit", "extract_sourceUnit"],
+            "Solstat.Props.C01": ["C01", "blocked_empty"],
+        },
+        "obs": [("compose", [])],
+        "kinds": ["COMPOSE"],
+        "rule": "a case is one (file, detector): the file has >= 2 top-level items; for every item the file is re-parsed with all other non-pragma items blanked (bytes -> spaces, line feeds kept) and the real detector is run on the whole and on every blanked variant; distinct by SHA-1; non-trivial when the whole file has findings",
+        "assumptions": [
+            "assumption about the parser, evaluated on every sample: blanking all other items yields exactly the whole tree with those items removed and all locations unchanged (`keep i`)",
+            "proved for the 22 detectors whose verdict does not look beyond the item (C19_local); string_errors / short_revert_string additionally need the version, which keep preserves (versionOf_keep); constant_variables, sstore, immutable_variables (name-keyed table: need items that do not mention each other's state variables) and increment_decrement (location subtraction: needs distinct locations) are covered by the correspondence and the oracle under those hypotheses, not by a theorem",
+            "the two SafeMath detectors are excluded by the property (file-wide `using` by design)",
+        ],
+    },
 }
